@@ -69,7 +69,10 @@ sh(f'mkdir -p {S}/engine/.cargo && rsync -a --delete --exclude .cargo --exclude 
 sh(f"sed 's#/repo/#{S}/repo/#g' /verif/engine/syltmc/Cargo.toml > {S}/engine/syltmc/Cargo.toml.new && (cmp -s {S}/engine/syltmc/Cargo.toml.new {S}/engine/syltmc/Cargo.toml || mv {S}/engine/syltmc/Cargo.toml.new {S}/engine/syltmc/Cargo.toml); rm -f {S}/engine/syltmc/Cargo.toml.new")
 open(f'{S}/engine/.cargo/config.toml', 'w').write(f'[net]\noffline = true\n[build]\ntarget-dir = "{S}/target"\n')
 # hard-coded source paths of corpus files stay on /repo (identical content unless the patch edits tests/std)
+sh(f'rm -f {S}/target/release/syltmc')
 rc, o = sh('cargo build --release --offline 2>&1 | tail -5', cwd=f'{S}/engine', timeout=3600)
+if not os.path.exists(f'{S}/target/release/syltmc'):
+    print('ENGINE-BUILD-FAILED (the harness does not build against the changed tree: every check would exit 2)\n' + o[-1500:])
 meta['engine_build'] = o[-300:]
 rc, o = sh(f'cargo build --offline --bin sylt --target-dir {S}/target/sylt-bin 2>&1 | tail -2', cwd=f'{S}/repo')
 root = f'{S}/verifroot'
